@@ -102,6 +102,13 @@ def run(rec, cfg):
 
     MP.attach_parser("C03", {"grammar"})
     rng = cfg.rng("c03")
+    from ..workloads import interrupted as _INT
+
+    if cfg.shard == 6 % cfg.nshards:
+        _INT.parser_cases(rec, "C03")      # a parse cut short (Ctrl-C, MemoryError), then valid parses: still exactly the grammar
+        from . import c12 as _c12
+
+        _c12.retry_with_more_stack(rec, prop="C03")
     from ..workloads import histories as W8
     from ..workloads import text as _WT
 
@@ -150,6 +157,11 @@ def run(rec, cfg):
 
 
 def replay(rec, cfg, w):
+    if "failpoint" in w:
+        from ..workloads import interrupted as _INT
+
+        _INT.parser_cases(rec, "C03")      # deterministic: the whole family of cases is run again
+        return
     if w.get("marathon") or any(isinstance(h, (list, tuple)) and len(h) > 1 and str(h[1]).endswith("w + 1") for h in (w.get("history") or [])[-50:]):
         from ..workloads import histories as _W9
 
